@@ -314,6 +314,6 @@ def finalize(cov, agg, tier):
 
 def subs(tier):
     return [Sub("fuzzsum", st.just({}), run_fuzzsum, quick=1, thorough=1, needs=("fuzzmaps",),
-                enum=lambda t: fuzzrun.campaigns(t, 12000, 600000), max_wall={"quick": 400, "thorough": 3000}),
+                enum=lambda t: fuzzrun.campaigns(t, 12000, 250000), max_wall={"quick": 400, "thorough": 3000}),
             Sub("sum", cases(), run_sum, quick=12000, thorough=120000),
             Sub("colsum", cases(), run_col, quick=8000, thorough=80000)]
